@@ -37,7 +37,7 @@ SUBSCRIBE = {
 TIERS = {
     # exhaustive: all DAGs up to this many jobs x {ok,fail}^n x N in {1,2,3} x 2 modes x 2 pacings
     "quick":    dict(exhaustive=4, random=2500, maxjobs=14, maxn=8, leakfam=400, perturb=30, seeds=1, blockers=80, capacity=60),
-    "thorough": dict(exhaustive=4, random=20000, maxjobs=60, maxn=64, leakfam=3000, perturb=30, seeds=3, blockers=600, capacity=400),
+    "thorough": dict(exhaustive=4, random=20000, maxjobs=60, maxn=64, leakfam=3000, perturb=30, seeds=5, blockers=600, capacity=400),
 }
 
 
